@@ -258,6 +258,7 @@ func (n *QueryNode) UnmarshalJSON(data []byte) error {
 		return err
 	}
 
+	n.Dimensions = unmarshalDimensions(n.Dimensions)
 	n.setID(raw.ID)
 	return nil
 }
